@@ -25,3 +25,20 @@ Lemma bridge_fault_dump dv jc f i c m :
   fst (Payload.fault_dump dv (Payload.mkFault (VInt c) (VStr m) i (mkPcfg (ver_of f) jc) VNone) VNone VNone)
   = Ok (Dispatch.fault_dump (Dispatch.mkFault c m i f)).
 Proof. destruct f; reflexivity. Qed.
+
+(** ** C04, client side: what Payload.notify builds is a notification for the dispatcher
+    (composition of the C14 client model with the dispatcher's specification vocabulary) *)
+Theorem client_notify_is_notification fresh f i method params n req p' n' :
+  String.eqb method "" = false -> is_param_container params = true ->
+  payload_notify fresh (mkPayload i (rat_ver f)) (VStr method) params n = Ok (req, p', n') ->
+  is_notification_entry req = true /\ method_of req = Some method
+  /\ (truthy params = true -> params_of req = params).
+Proof.
+  intros Hm Hp H. unfold is_param_container in Hp.
+  unfold payload_notify, payload_request, params_or_empty in H.
+  cbn [is_string negb] in H.
+  destruct (needs_fresh_id i); destruct (truthy params) eqn:Ht; destruct f;
+    vm_compute in H; inversion H; subst; clear H;
+    unfold is_notification_entry, wellformed_entry, no_id, method_of, params_of;
+    cbn; rewrite ?Hm, ?Hp; cbn; repeat split; auto; intros; discriminate.
+Qed.
